@@ -154,6 +154,24 @@ def loop_guard(run, rid, m, c, rule_id):
             aa = _abs_arg(a)
             if aa is not None and _is_remaining(m, c, aa) and isinstance(op, ops) and isinstance(b, ast.Call) and fname(b) in ("tol_epsilon", "epsilon"):
                 guard_ok = True
+    # ... and the only thing the guard may ask of the step itself is that it is not exactly zero: an absolute floor on |dt| (machine epsilon is a RELATIVE quantity)
+    # keeps a legal tiny step - 0.5 fs on a problem posed in seconds - from ever running, and integrate() returns 'completed successfully' at the start time
+    for cmp_ in [n for n in ast.walk(m.loop.test) if isinstance(n, ast.Compare) and len(n.ops) == 1]:
+        sides = [cmp_.left, cmp_.comparators[0]]
+        dts = [s_ for s_ in sides if any(is_self_attr(x, "dt") or is_self_attr(x, "__dt") for x in ast.walk(s_))]
+        if not dts or any(_abs_arg(s_) is not None and _is_remaining(m, c, _abs_arg(s_)) for s_ in sides):
+            continue
+        other = [s_ for s_ in sides if s_ not in dts]
+        try:
+            zero = bool(other) and const_value(other[0]) == 0
+        except ValueError:
+            zero = False
+        ok_dt = zero and isinstance(cmp_.ops[0], (ast.NotEq, ast.Eq)) and (is_self_attr(dts[0], "dt") or is_self_attr(dts[0], "__dt"))
+        run.judged(rid, "step clause of the loop guard: `%s`" % src(cmp_)[:60], ok=ok_dt)
+        if not ok_dt:
+            run.report(rule_id, DS, cmp_, "the loop guard tests the step against something other than exact zero (`%s`): a floor that is not scaled to the times of the problem stops "
+                                          "the loop before it starts for a legal small step (|dt| <= 8.9e-16 in float64: femtosecond steps on a problem posed in seconds), and the "
+                                          "call returns with status 'completed successfully' and the grid stuck short of the target" % src(cmp_)[:70], text="loop guard floor on dt")
     run.judged(rid, "loop guard: %s" % src(m.loop.test)[:140], ok=guard_ok)
     if not guard_ok:
         run.report(rule_id, DS, m.loop.test, "the loop condition does not continue while |tf - t[counter]| >= epsilon (a magnitude test): the run can stop short of the "
